@@ -1,5 +1,5 @@
 (* C08 — Ill-formed models are rejected, never silently repaired. *)
-From GX Require Import Base Expr Topo Ode Target Sem Codegen Load LoadSound Valid Examples.
+From GX Require Import Base Expr Topo KahnSound Ode OrderSound Target Sem Codegen Load LoadSound Valid Examples.
 Open Scope string_scope.
 Open Scope list_scope.
 
@@ -40,6 +40,33 @@ Proof.
   destruct (exec_sound N o ss inp with_dt f H1 H2 H3) as (out & A & B & _). exists out. auto.
 Qed.
 Print Assumptions C08_validated_code_never_reads_an_undefined_value.
+
+(* cyclic definitions get no statement order at all (graphlib.CycleError in the implementation):
+   if sorted_assignments returns an order, no assignment reads itself, no two assignments read
+   each other, and in general every assignment comes strictly after everything it reads - so no
+   dependency cycle of any length exists among the ordered assignments *)
+Theorem C08_an_ordered_model_has_no_self_dependency :
+  forall dp names ord n,
+    static_order (build dp names []) = Some ord -> In n names -> ~ In n (dp n).
+Proof. exact build_order_no_self_dep. Qed.
+Print Assumptions C08_an_ordered_model_has_no_self_dependency.
+
+Theorem C08_an_ordered_model_has_no_mutual_dependency :
+  forall o ru ord n m,
+    sorted_names o ru = Some ord -> In n ord -> In m ord ->
+    In m (deps_of o n) -> In n (deps_of o m) -> False.
+Proof. exact sorted_names_acyclic2. Qed.
+Print Assumptions C08_an_ordered_model_has_no_mutual_dependency.
+
+Theorem C08_static_order_is_topological :
+  forall dp names ord,
+    static_order (build dp names []) = Some ord ->
+    NoDup ord
+    /\ (forall n, In n names -> In n ord)
+    /\ (forall pre n post, ord = pre ++ n :: post -> In n names ->
+          forall d, In d (dp n) -> In d pre).
+Proof. exact build_order_sound. Qed.
+Print Assumptions C08_static_order_is_topological.
 
 (* the mirror rejects each kind of fault (computed): duplicate with the same dependency set,
    duplicate derivative, kind clash, missing derivative, orphan derivative, undefined symbol; and a
